@@ -83,6 +83,9 @@ func c05SpecAccept(wire []byte, rx c05Rx) bool {
 	return want == mic
 }
 
+// registration calls that must be refused, made between sending and receiving (nil when the case has no proprietary command)
+var c05Refused func()
+
 func runC05(c *core.Ctx) {
 	n := c.N(3000, 400000)
 	for i := int64(0); i < n; i++ {
@@ -90,6 +93,7 @@ func runC05(c *core.Ctx) {
 			continue
 		}
 		r := c.RNG("exchange", i)
+		lorawan.VerifResetProprietary() // every case starts from the same (empty) registry
 		o := anyData()
 		o.rawFOpts = 0
 		o.macInFRM = 1
@@ -104,6 +108,38 @@ func runC05(c *core.Ctx) {
 			d.Spec.FCnt |= uint32(1+r.Intn(0xfffe)) << 16
 		}
 		up := d.Spec.Uplink()
+		// a deployment with a proprietary MAC command: registered before the exchange, carried in the
+		// frame, and between sending and receiving somebody makes registration calls that are refused
+		proprietary := false
+		if r.Chance(1, 6) {
+			cid, size := byte(0xE0+r.Intn(4)), 1+r.Intn(3)
+			pb := r.Bytes(size)
+			cmd := &lorawan.MACCommand{CID: lorawan.CID(cid), Payload: &lorawan.ProprietaryMACCommandPayload{Bytes: append([]byte{}, pb...)}}
+			raw := append([]byte{cid}, pb...)
+			switch {
+			case len(d.Spec.FOpts) > 0 && len(d.Spec.FOpts)+len(raw) <= 15:
+				d.FOpts = append([]lorawan.Payload{cmd}, d.FOpts...)
+				d.Spec.FOpts = append(raw, d.Spec.FOpts...)
+				proprietary = true
+			case d.FRMIsMAC && len(d.Spec.FRMPayload) > 0 && len(d.Spec.FRMPayload)+len(raw) <= 200:
+				d.FRM = append([]lorawan.Payload{cmd}, d.FRM...)
+				d.Spec.FRMPayload = append(raw, d.Spec.FRMPayload...)
+				proprietary = true
+			}
+			if proprietary {
+				lorawan.VerifResetProprietary()
+				lorawan.RegisterProprietaryMACCommand(up, lorawan.CID(cid), size)
+				refused := func() {
+					lorawan.RegisterProprietaryMACCommand(up, lorawan.CID(cid), -1-r.Intn(3))
+					lorawan.RegisterProprietaryMACCommand(up, lorawan.CID(r.Intn(0x80)), size+1)
+					lorawan.RegisterProprietaryMACCommand(!up, lorawan.CID(cid), -1)
+				}
+				c05Refused = refused
+			}
+		}
+		if !proprietary {
+			c05Refused = nil
+		}
 		v11 := r.Bool()
 		var k c05Keys
 		k.app, k.enc, k.fInt, k.sInt = key16(r), key16(r), key16(r), key16(r)
@@ -212,6 +248,10 @@ func runC05(c *core.Ctx) {
 			c.Sample("exchange", map[string]interface{}{"direction": dir, "v11": v11, "fcnt": d.Spec.FCnt, "where": where, "sender_calls": trace, "wire": core.Hex(wire)})
 		}
 
+		if c05Refused != nil {
+			c05Refused()
+			c.Count("exchanges.with-proprietary-command-and-refused-registrations", 1)
+		}
 		// ---- receiver, untampered
 		rx := c05Rx{v11: v11, up: up, fcntHigh: d.Spec.FCnt >> 16, conf: conf, txDR: txDR, txCh: txCh, keys: k}
 		got, ok, stage, pm := c05Receive(wire, rx)
